@@ -188,6 +188,21 @@ impl TestRunner {
         ram.write()
             .unwrap()
             .load_program(test_bank.range().start, test_bank.data());
+        // The bank image holds a segment where it is stored. A segment that runs somewhere else (it has a 'pc' of its
+        // own) or that is not written at all must also be present where its code runs: that is where the test starts
+        // and where its labels point to
+        let segment_bank = segment_bank.clone();
+        for other in ctx.segments().values() {
+            let in_bank = other.options().bank.as_ref() == Some(&segment_bank);
+            let elsewhere = other.target_offset() != 0 || !other.options().write;
+            if in_bank && elsewhere && !other.range().is_empty() {
+                let start = other.range().start as i64 + other.target_offset();
+                let data = other.range_data();
+                if start >= 0 && start as usize + data.len() <= 65536 {
+                    ram.write().unwrap().load_program(start as usize, data);
+                }
+            }
+        }
 
         let mut cpu = MOS6502::new();
         cpu.set_program_counter(active_test.data.as_i64() as u16);
